@@ -239,11 +239,15 @@ def decorate_frame(rng, df, cfg):
         elif not isinstance(nm, str):
             df.index = df.index.set_names(list(nm)[:df.index.nlevels])
     for key in cfg.get('extras') or []:
-        df.insert(rng.randint(0, len(df.columns)), 'x_' + key, U.typed_values(rng, key, n))
-    ren = cfg.get('colnames')
-    if ren:
+        if 'x_' + key not in df.columns:
+            df.insert(rng.randint(0, len(df.columns)), 'x_' + key, U.typed_values(rng, key, n))
+    if cfg.get('colnames'):
         taken = set(df.columns) | set(x for x in df.index.names if x is not None)
-        ren = {a: b for a, b in ren.items() if a in df.columns and b not in taken}
+        ren = {}
+        for a, b in cfg['colnames'].items():       # one after the other: no two columns get the same name
+            if a in df.columns and b not in taken:
+                ren[a] = b
+                taken.add(b)
         if ren:
             df = GeoDataFrame({ren.get(c, c): df[c].array for c in df.columns}, index=df.index)
     return df
@@ -1123,26 +1127,53 @@ def configs(rep, tier):
         cnt[key] += 1
         return pool[(cnt[key] - 1) % len(pool)]
 
+    # (the index of the configurations above is left as it is: names / typed indexes get runs of their own)
     for t, cfg in enumerate(pand + dask_):
         isdask = 'npartitions' in cfg
         nds = cfg.get('ndatasets', 1)
-        ik = cfg['index_kind']
         ex = [nxt(cold, 'c'), nxt(cold, 'c')]
         if nds > 1:
             ex = [k for k in ex if k not in multi_unsafe]
         cfg['extras'] = ex
-        if t % 2 == 0 and ik != 'hilbert_distance':
-            nm = nxt(names, 'n')
-            if not (isdask and not nm.isascii() and False):
-                cfg['index_name'] = [nm, nxt(names, 'n')] if ik.startswith('multi') else nm
-        if t % 4 == 1 and not ik.startswith('multi') and nds == 1:
-            cfg['index_dtype'] = nxt(idxd, 'i')
-            if isdask:
-                cfg['sort'] = False
         if t % 5 == 3:
             cfg['colnames'] = {'s': nxt(names, 'n'), 'f': nxt(names, 'n'), 'gb': 'geometry'}
         if isdask and t % 2 == 1:
             cfg['variant'] = nxt(['pathlib', 'sindex', 'geometry', 'nosel'], 'v')
+    # every reserved-looking name as the index name of a pandas round trip; a dozen of them (always
+    # 'index', 'level_0', '') through Dask with 1 / 2 / 3 / 11 partitions
+    nkinds = ['named', 'nonunique', 'range_named', 'unnamed', 'decreasing', 'range', 'nonunique_shuffled', 'multi']
+    for t, nm in enumerate(names):
+        k, s = combos[t % len(combos)]
+        k2, s2 = rng.choice(combos)
+        ik = nkinds[t % len(nkinds)]
+        pand.append({'kinds': (k, k2), 'subtypes': (s, s2), 'nrows': rng.choice([1, 3, 6]), 'index_kind': ik,
+                     'derive': t % 2, 'nan_p': 0, 'compression': comp[t % 3], 'seed': rng.randrange(10 ** 9),
+                     'quick': quick, 'row_group_size': None, 'extras': [nxt(cold, 'c')],
+                     'index_name': [nm, names[(t + 1) % len(names)]] if ik == 'multi' else nm})
+    dnames = ['index', 'level_0', ''] + [n for n in names if n not in ('index', 'level_0', '')]
+    for t, nm in enumerate(dnames):
+        k, s = rng.choice(combos)
+        k2, s2 = rng.choice(combos)
+        npart = [2, 1, 3, 11][t % 4]
+        lite = quick and t >= 12          # the remaining names: one or two partitions, the whole frame only
+        if lite:
+            npart = 1 + t % 2
+        dask_.append({**({'projections': [None]} if lite else {}),
+                      'kinds': (k, k2), 'subtypes': (s, s2), 'nrows': npart * 2 + rng.randint(0, 2), 'npartitions': npart,
+                      'index_kind': nkinds[(t + t // 7) % 7], 'derive': t % 2, 'nan_p': 0, 'compression': comp[t % 3],
+                      'sort': t % 3 == 0, 'ndatasets': 1, 'seed': rng.randrange(10 ** 9), 'quick': True,
+                      'extras': [nxt(cold, 'c')], 'index_name': nm})
+    # every index dtype family on the pandas path, a third of them per run through Dask
+    for t, key in enumerate(idxd):
+        k, s = rng.choice(combos)
+        k2, s2 = rng.choice(combos)
+        base = {'kinds': (k, k2), 'subtypes': (s, s2), 'index_kind': ['named', 'unnamed'][t % 2], 'derive': t % 2,
+                'nan_p': 0, 'compression': comp[t % 3], 'quick': True, 'index_dtype': key, 'extras': [nxt(cold, 'c')]}
+        pand.append({**base, 'nrows': rng.choice([1, 4, 7]), 'seed': rng.randrange(10 ** 9), 'row_group_size': None})
+        if not quick or t < 6:
+            npart = [3, 1, 2][t % 3]
+            dask_.append({**base, 'nrows': npart * 2 + 1, 'npartitions': npart, 'sort': False, 'ndatasets': 1,
+                          'seed': rng.randrange(10 ** 9)})
     # an ordinary (non-index) column that is merely NAMED like the index of a packed dataset, or like a
     # placeholder, requested by name: on every run, both paths, one and several partitions
     for t, (nm, ik, npart) in enumerate([('hilbert_distance', 'range', 1), ('hilbert_distance', 'named', 3),
